@@ -22,7 +22,7 @@ sys.path.insert(0, ROOT)
 
 from pyvc import sym, interp, models, contract, solve, loader, bounded  # noqa: E402
 
-CONTRACT_MODULES = ["der", "util", "numbertheory", "ellipticcurve", "ecdsa_", "keys", "rfc6979", "ecdh", "keys_load", "keys_ser", "curves", "history"]
+CONTRACT_MODULES = ["der", "util", "numbertheory", "ellipticcurve", "ecdsa_", "keys", "rfc6979", "ecdh", "keys_load", "keys_ser", "curves", "groupmode", "history"]
 
 
 def load_all():
@@ -218,7 +218,15 @@ def run_bounded(P, R, tier, seed):
                     # modular proof: this function was verified against its callees' contracts, and a callee's own
                     # obligation is open in this run - the run-time failure is the consequence, reported with it
                     R.consequences = getattr(R, "consequences", [])
-                    R.consequences.append(dict(obligation=name, args={k: bounded.show(v) for k, v in args.items()}, observed=observed))
+                    wc0 = c
+                    if "run" in spec:
+                        fq0 = "ecdsa." + name.split("#")[0]
+                        try:
+                            loader.find_function(fq0)
+                        except KeyError:
+                            fq0 = q
+                        wc0 = LemmaWitness(fq0, [v for v in args.values() if v is not None])
+                    R.consequences.append(dict(obligation=name, args={k: bounded.show(v) for k, v in args.items() if k != "__script__"}, observed=observed, raw=(wc0, args, observed)))
                     continue
             R.bounded_found = getattr(R, "bounded_found", {})
             wc = c
@@ -370,6 +378,14 @@ def main():
             path = write_replay(a.prop, name, w[0], w[1], w[2], solver_note, tier)
             print("VIOLATION property=%s replay=%s" % (a.prop, path))
             print("  obligation %s fails on %s: %s" % (name, {kk: bounded.show(v) for kk, v in w[1].items()}, w[2]))
+        elif getattr(R, "consequences", None):
+            # no input violates this clause in isolation, but the real code, run on a concrete input, breaks a clause that
+            # was proved from it (modular proof): that input is the replayable witness of the undischarged obligation
+            cons = R.consequences[0]
+            w = cons["raw"]
+            path = write_replay(a.prop, name, w[0], w[1], w[2], solver_note + " || run-time consequence: %s" % cons["obligation"], tier)
+            print("VIOLATION property=%s replay=%s" % (a.prop, path))
+            print("  obligation %s is not discharged; the real code then violates %s on %s: %s" % (name, cons["obligation"], cons["args"], w[2]))
         else:
             fshort = name.split("#")[0]
             c = contract.REGISTRY.get("ecdsa." + fshort)
